@@ -112,7 +112,35 @@ pub fn programs(tier: Tier) -> ProgramSet {
             }
         }
     }
-    ProgramSet { programs: finish(out), excluded: Default::default(), bounds: json!({"plan_(N,k)": plan, "identifier_pool": IDENT_POOL, "payload_assignments": 2}) }
+    // SCALE: 26 variants (every predicate is asked on every variant: 26 x 26), wide tuple / named variants
+    {
+        let mut spec = EnumSpec::base(0);
+        let tys = [FieldTy::U8, FieldTy::I32, FieldTy::Bool, FieldTy::SStr];
+        let words = ["Alpha", "HTTPServer", "Utf8To16Le", "AaBbCcDdEeFfGgHhIiJjKkLl", "X", "Xy", "XyZ", "X1y", "Café2", "V"];
+        for i in 0..26usize {
+            let id = if i < words.len() { words[i].to_string() } else { format!("Var{}Of26", i) };
+            let mut v = VariantSpec::unit(&id);
+            match i % 5 {
+                1 => v.kind = Kind::Tuple(vec![tys[i % 4].clone()]),
+                2 => v.kind = Kind::Named(vec![NamedField { name: format!("n{}", i), ty: tys[i % 4].clone(), default_with: false }]),
+                3 => v.kind = Kind::Tuple((0..(i % 4 + 2)).map(|j| tys[(i + j) % 4].clone()).collect()),
+                _ => {}
+            }
+            if i % 11 == 10 {
+                v.disabled = true;
+            }
+            spec.variants.push(v);
+        }
+        let mut w = VariantSpec::unit("Wide12");
+        w.kind = Kind::Tuple((0..12).map(|j| tys[j % 4].clone()).collect());
+        spec.variants.push(w);
+        let mut n = VariantSpec::unit("Named12");
+        n.kind = Kind::Named((0..12).map(|j| NamedField { name: format!("f{}", j), ty: tys[(j + 1) % 4].clone(), default_with: false }).collect());
+        spec.variants.push(n);
+        let source = render(&spec);
+        out.push(Program { idx: 0, label: "SCALE: 28 variants incl. 12-field tuple and named variants".into(), k: 1, spec, aux: json!(null), source });
+    }
+    ProgramSet { programs: finish(out), excluded: Default::default(), bounds: json!({"plan_(N,k)": plan, "identifier_pool": IDENT_POOL, "payload_assignments": 2, "scale": "28 variants, 12-field variants"}) }
 }
 
 /// (expression, Debug text) of payload assignment j for a field type
